@@ -290,9 +290,23 @@ func checkC11(r *Run) {
 		if len(occ) == 0 {
 			continue
 		}
+		// occurrences whose full path ends in "<exported type>.<field>" (a field named like an
+		// exported type, README: `Metadata Metadata = 1`) are drawn more often: a key lookup that
+		// is not exact would hit the exported type as well
+		var prio []int
+		for i, o := range occ {
+			for _, t := range be.Cfg.Types {
+				if strings.HasSuffix(o.Path, "."+t+"."+o.Field.Name) {
+					prio = append(prio, i)
+				}
+			}
+		}
 		for k := 0; k < perBase; k++ {
 			opt := fieldOptions[k%len(fieldOptions)]
 			o := occ[rnd.Intn(len(occ))]
+			if len(prio) > 0 && k%2 == 0 {
+				o = occ[prio[rnd.Intn(len(prio))]]
+			}
 			if opt == "exclude_fields" {
 				// exclusions that would leave a message without any field are outside the statement
 				live := 0
